@@ -9,6 +9,7 @@ import (
 	cbackoff "github.com/cenkalti/backoff/v4"
 	"verifsim/harness/core"
 	"verifsim/simrt"
+	"verifsim/simrt/stime"
 )
 
 // incarnation: from a constructor call made while the key was absent until its removal.
@@ -98,7 +99,13 @@ func (w *runWorld) ctor(key string) (keyed.Routine, int) {
 		case 2, 3, 4:
 			simrt.Recv1("keyedx.inst-run", ctx.Done())
 			c.S.Count("probe:instance-cancelled")
-			core.YieldN("keyedx.inst-late", k)
+			if c.S.PlanP(250) {
+				// exit latency in simulated time: overlaps with retry / release-delay timers
+				c.S.Count("probe:instance-slow-exit-simtime")
+				stime.Sleep([]time.Duration{10 * time.Millisecond, 70 * time.Millisecond, 150 * time.Millisecond}[c.S.Plan(3)])
+			} else {
+				core.YieldN("keyedx.inst-late", k)
+			}
 			return ctx.Err()
 		case 5:
 			g := make(chan struct{})
@@ -387,15 +394,19 @@ func runRun(c *core.Ctx) {
 	}
 	w.k.ClearContext()
 	w.ctxTag = 0
-	for i := 0; i < 50; i++ {
+	for i := 0; i < 80; i++ {
 		c.S.Quiesce()
-		if len(w.gates) == 0 {
+		if len(w.gates) == 0 && c.S.PendingTimers() == 0 {
 			break
 		}
 		for _, g := range w.gates {
 			close(g)
 		}
 		w.gates = nil
+		// let simulated time pass: instances that take simulated time to exit, stale timers
+		if at, ok := c.S.NextTimerAt(); ok {
+			c.S.Advance(at - c.S.Now())
+		}
 	}
 	if c.Failed() {
 		return
